@@ -13,6 +13,5 @@ git -C $WT apply -R /tmp/seed-$ID-scratch/confirm.patch
 B2=$($WT/vrun sh -c 'make -C lib -j6 >/dev/null 2>&1; make -C compat -j6 >/dev/null 2>&1; make -C src -j6 >/dev/null 2>&1; echo $?')
 timeout 600 sh -c "$DEMO" > /tmp/seed-$ID-scratch/confirm_demo_without.log 2>&1; D2=$?
 git -C $WT apply /tmp/seed-$ID-scratch/confirm.patch
-pkill -f "seed-$ID" 2>/dev/null
 printf '{"build_with_change_rc": %s, "make_check_rc": %s, "tests_pass": %s, "tests_fail": %s, "demo_with_change_rc": %s, "build_without_change_rc": %s, "demo_without_change_rc": %s}\n' "$B1" "$CK" "$PASS" "$FAIL" "$D1" "$B2" "$D2" > $OUT/confirm.json
 cat $OUT/confirm.json
